@@ -140,8 +140,8 @@ def checkItems (fl : Flags) (Γ : Ctx) (κ : Env) (a : Width) : Exs → C (List 
 end
 
 mutual
-/-- `fix_mux_widths`: children first, then a case expression whose checked width is `bits w`
-    becomes `mux[0..w]` -/
+/-- `fix_mux_widths`: a case expression whose checked width is `bits w` becomes `mux'[0..w]`,
+    where `mux'` has its sub-expressions rewritten in the same way -/
 def fixMux (fl : Flags) (Γ : Ctx) (κ : Env) : Ex → Ex
   | .const v => .const v
   | .bin op l r => .bin op (fixMux fl Γ κ l) (fixMux fl Γ κ r)
@@ -152,7 +152,7 @@ def fixMux (fl : Flags) (Γ : Ctx) (κ : Env) : Ex → Ex
   | .inSet e items => .inSet (fixMux fl Γ κ e) (fixMuxExs fl Γ κ items)
   | .mux opts =>
       let m := Ex.mux (fixMuxOpts fl Γ κ opts)
-      match check fl Γ κ m with
+      match check fl Γ κ (.mux opts) with             -- the width checked before the rewrite
       | .ok (.bits w) => .slice m 0 w
       | _ => m
 def fixMuxOpts (fl : Flags) (Γ : Ctx) (κ : Env) : Opts → Opts
